@@ -25,6 +25,7 @@ RULE += ' Right-hand sides also apply - * / ** and unary minus to containers, an
 RULE += ' Host values also include an OrderedDict, a defaultdict, a list subclass and a list nested 700 levels deep (deeper than copy.deepcopy can recurse).'
 RULE += ' Host containers include hashable list / dict subclasses (identity hash).'
 RULE += " One more workload: the repository's own test-suite, run in a worker process against the sandbox copy with this check's monitors installed (the tests' assertions are not the oracle, the monitors are)."
+RULE += " Coverage-guided programs: one atheris/libFuzzer process per worker (6 s quick, 120 s thorough) runs this check's own judgement on generated program texts over the instrumented sandbox copy; programs on which an unlisted violation was recorded there are judged again by the worker."
 ASSUMPTIONS = ['internal aliasing inside one stored value is legitimate; the invariant is about objects shared with the outside',
                'for compound forms the independent copy is that of the operand (the target list itself is extended in place by design)',
                'push/insert are not assignments (they store the same object) and are not judged here']
@@ -275,6 +276,7 @@ def cases(ctx):
     rnd = ctx.rnd
     if ctx.shard == ctx.nshards - 1:
         yield ('repo-tests', 0)
+    yield ('cgf', rnd.getrandbits(30), ctx.scale(6, 120))          # coverage-guided programs, one fuzzing process per worker
     if ctx.shard == 0:
         for src in ['a = hl\npush(hl[0], 9)\na', 'x = hl\ny = hl\npush(x, 1)\ny', 'c = []\nc[0] = hl[0]', 'c = [1]\nc[len(c)] = hl[0]', 'p = items(hd)\np[0][1]',
                     'c = {}\nc["e"] = enumerate(hl)', 'acc = []\nacc += items(hd)', 'hl[1] += hl[0]', 'hd["k"] += [hl]', 'x = hl\ny = hl[0]\nz = [x, y]',
@@ -284,7 +286,35 @@ def cases(ctx):
         yield ('gen', rnd.getrandbits(48))
 
 
+def case_deadline(case):
+    return case[2] + 400 if case[0] == 'cgf' else CASE_DEADLINE
+
+
+def run_cgf(case, ctx):
+    """coverage-guided programs: an atheris/libFuzzer process runs THIS check's run_case on ('src', text) cases over the instrumented sandbox copy (the ownership
+    monitors judge every assignment form the program executes); programs on which a violation was recorded there are judged again here"""
+    from lib import cgdriver
+    _, seed, seconds = case
+    r = random.Random(seed)
+    seeds = ['a = hl\npush(hl[0], 9)\na', 'x = hl\ny = hl\npush(x, 1)\ny', 'c = []\nc[0] = hl[0]', 'p = items(hd)\np[0][1]', 'acc = []\nacc += items(hd)', 'hl[1] += hl[0]', 'hd["k"] += [hl]',
+             'b = [a, hl[0]]\nda = {"q": hd["k"]}\nda["q"][0] = 7', 'c = sorted(hl, v => str(v))\nc[0] += [1]', 'x2 = hid(hd)["k"]\ndel x2[0]']
+    for _ in range(8):
+        seeds.append('\n'.join(gen_program(r)))
+    out = cgdriver.run(ctx, 'check:C12:src', seed, seconds, seeds)
+    if out is None:
+        return
+    st, fired, _slow = out
+    for text in fired:
+        ctx.count('programs_on_which_the_oracle_fired_in_the_fuzzing_process')
+        before = len(ctx.violations)
+        run_case(('src', text), ctx)
+        if len(ctx.violations) == before:
+            ctx.violation('coverage-guided fuzzing: a violation was recorded in the fuzzing process but not when the program was judged again here', ('src', text), detail={'src': text[:300]})
+
+
 def run_case(case, ctx):
+    if case[0] == 'cgf':
+        return run_cgf(case, ctx)
     W = ctx.W
     ctx.M1.lambdas.clear()
     if case[0] == 'repo-tests':
